@@ -6,7 +6,9 @@
 //	          table must equal the Lean model's and the independent Go decoder's reading.
 //	nd.trace  trace-acceptance mode: StartHunt/StopHunt/Close/RA sequences in real time on the real
 //	          handler; the ordered log (API call/return, NA frames written) must be accepted by the
-//	          Lean hunt machine and satisfy the Go-side oracle.
+//	          Lean hunt machine and satisfy the Go-side oracle.  The recording connection can hold one
+//	          forged NA inside WriteTo (steps a<m>, b<ms>): StopHunt / Close are then called while a
+//	          batch is in flight – they must not return before the batch is on the wire.
 package c14
 
 import (
@@ -70,8 +72,59 @@ func (l *tlog) add(tok string) (int, time.Duration) {
 	return len(l.evs) - 1, at
 }
 
+// gate holds one forged NA inside WriteTo: the frame is on the wire (and logged) only when WriteTo
+// returns.  A held write is released by release() or, whatever the scenario does, after maxHold.
+type gate struct {
+	mu      sync.Mutex
+	armed   []byte        // destination MAC whose next NA is held (nil: none)
+	blocked chan struct{} // receives one token when a write is being held
+	open    chan struct{} // closed to let the held write go on
+}
+
+const maxHold = 3 * time.Second
+
+func newGate() *gate { return &gate{blocked: make(chan struct{}, 1), open: make(chan struct{})} }
+
+func (g *gate) arm(mac []byte) {
+	g.mu.Lock()
+	g.armed = append([]byte{}, mac...)
+	g.mu.Unlock()
+}
+
+func (g *gate) release() {
+	g.mu.Lock()
+	g.armed = nil
+	select {
+	case <-g.open:
+	default:
+		close(g.open)
+	}
+	g.mu.Unlock()
+}
+
+// hold blocks the calling WriteTo when the gate is armed for dst.
+func (g *gate) hold(dst []byte) {
+	g.mu.Lock()
+	if g.armed == nil || string(g.armed) != string(dst) {
+		g.mu.Unlock()
+		return
+	}
+	g.armed = nil
+	open := g.open
+	g.mu.Unlock()
+	select {
+	case g.blocked <- struct{}{}:
+	default:
+	}
+	select {
+	case <-open:
+	case <-time.After(maxHold):
+	}
+}
+
 type lconn struct {
 	log    *tlog
+	gate   *gate
 	closed chan struct{}
 	once   sync.Once
 }
@@ -86,6 +139,9 @@ func (c *lconn) WriteTo(b []byte, addr net.Addr) (int, error) {
 			override: icmp[4]&0x20 != 0, router: icmp[4]&0x80 != 0}
 		if len(icmp) >= 32 && icmp[24] == 2 && icmp[25] == 1 {
 			f.tlla = append([]byte{}, icmp[26:32]...)
+		}
+		if c.gate != nil {
+			c.gate.hold(f.dstMAC) // a slow link: the frame leaves when WriteTo returns
 		}
 		l.mu.Lock()
 		f.at = time.Since(l.t0)
@@ -104,13 +160,19 @@ func (c *lconn) SetReadDeadline(t time.Time) error  { return nil }
 func (c *lconn) SetWriteDeadline(t time.Time) error { return nil }
 
 func newHandler() (*packet.Session, *icmp_spoofer.Handler6, *tlog) {
+	s, h, l, _ := newGatedHandler()
+	return s, h, l
+}
+
+func newGatedHandler() (*packet.Session, *icmp_spoofer.Handler6, *tlog, *gate) {
 	l := &tlog{t0: time.Now()}
-	s, err := packet.Config{Conn: &lconn{log: l, closed: make(chan struct{})}, NICInfo: sess.DefaultNIC()}.NewSession("")
+	g := newGate()
+	s, err := packet.Config{Conn: &lconn{log: l, gate: g, closed: make(chan struct{})}, NICInfo: sess.DefaultNIC()}.NewSession("")
 	if err != nil {
 		panic(err)
 	}
 	h, _ := icmp_spoofer.New6(s)
-	return s, h, l
+	return s, h, l, g
 }
 
 func frame6(srcMAC []byte, src, dst netip.Addr, payload []byte) []byte {
@@ -360,6 +422,9 @@ func raOracle(toks []raTok, impl string) (string, string) {
 //                                x<m>:<cls>  StopHunt            c  Close
 //                                r<k>:<rep>  inject an RA of router k with `repeat` set to rep first
 //                                w<ms>       sleep
+//                                a<m>        arm the gate: the next forged NA to MAC m is held inside WriteTo
+//                                b<ms>       wait (at most 6 s) until a write is held, release it <ms> ms later
+//                                            (the following step runs while the batch is in flight)
 
 func macOf(m int) net.HardwareAddr { return net.HardwareAddr{0x02, 0xcc, 0, 0, 0, byte(m)} }
 func addrOf(m int, cls byte) packet.Addr {
@@ -391,23 +456,31 @@ type apiOp struct {
 
 const tail = 3300 * time.Millisecond
 
-func runTrace(scn string) (evs []event, nas []naFrame, ops []*apiOp, hostMAC []byte) {
-	s, h, l := newHandler()
+func runTrace(scn string) (evs []event, nas []naFrame, ops []*apiOp, hostMAC []byte, panicked string) {
+	s, h, l, g := newGatedHandler()
 	hostMAC = append([]byte{}, s.NICInfo.HostAddr4.MAC...)
 	n := 0
-	for _, st := range strings.Split(scn, ",") {
-		if st == "" {
-			continue
-		}
+	step := func(st string) {
 		op, arg := st[0], st[1:]
 		switch op {
 		case 'w':
 			ms, _ := strconv.Atoi(arg)
 			time.Sleep(time.Duration(ms) * time.Millisecond)
+		case 'a':
+			m, _ := strconv.Atoi(arg)
+			g.arm(macOf(m))
+		case 'b':
+			ms, _ := strconv.Atoi(arg)
+			select {
+			case <-g.blocked:
+				time.AfterFunc(time.Duration(ms)*time.Millisecond, g.release)
+			case <-time.After(6 * time.Second):
+				g.release() // nothing was sent to that MAC: disarm
+			}
 		case 's', 'x':
 			f := strings.Split(arg, ":")
 			if len(f) != 2 || len(f[1]) != 1 {
-				continue
+				return
 			}
 			m, _ := strconv.Atoi(f[0])
 			a := addrOf(m, f[1][0])
@@ -426,8 +499,8 @@ func runTrace(scn string) (evs []event, nas []naFrame, ops []*apiOp, hostMAC []b
 				default:
 					o.res = "h"
 				}
-				o.huntLenAfter = h.VerifHuntLen()
 				o.retIdx, o.retAt = l.add(fmt.Sprintf("Sr%d:%s", k, o.res))
+				o.huntLenAfter = h.VerifHuntLen()
 			} else {
 				o.kind = 'X'
 				eff := "1"
@@ -437,8 +510,8 @@ func runTrace(scn string) (evs []event, nas []naFrame, ops []*apiOp, hostMAC []b
 				o.res = eff
 				o.callIdx, o.callAt = l.add(fmt.Sprintf("Xc%d:%s:%s", k, hx(a.MAC), eff))
 				h.StopHunt(a)
-				o.huntLenAfter = h.VerifHuntLen()
 				o.retIdx, o.retAt = l.add(fmt.Sprintf("Xr%d", k))
+				o.huntLenAfter = h.VerifHuntLen()
 			}
 			ops = append(ops, o)
 		case 'c':
@@ -452,7 +525,7 @@ func runTrace(scn string) (evs []event, nas []naFrame, ops []*apiOp, hostMAC []b
 		case 'r':
 			f := strings.Split(arg, ":")
 			if len(f) != 2 {
-				continue
+				return
 			}
 			rk, _ := strconv.Atoi(f[0])
 			rep, _ := strconv.Atoi(f[1])
@@ -464,6 +537,7 @@ func runTrace(scn string) (evs []event, nas []naFrame, ops []*apiOp, hostMAC []b
 			k := n
 			n++
 			raMu.Lock()
+			defer raMu.Unlock()
 			icmp_spoofer.VerifSetRepeat(rep)
 			o.callIdx, o.callAt = l.add(fmt.Sprintf("Rc%d:%s", k, tok.String()))
 			var err error
@@ -481,21 +555,39 @@ func runTrace(scn string) (evs []event, nas []naFrame, ops []*apiOp, hostMAC []b
 				o.res = "0"
 			}
 			o.retIdx, o.retAt = l.add(fmt.Sprintf("Rr%d:%s", k, o.res))
-			raMu.Unlock()
 			ops = append(ops, o)
 		}
 	}
-	time.Sleep(tail)
+	for _, st := range strings.Split(scn, ",") {
+		if st == "" {
+			continue
+		}
+		func() {
+			defer func() {
+				if r := recover(); r != nil {
+					panicked = fmt.Sprintf("step %s panicked: %v", st, r)
+				}
+			}()
+			step(st)
+		}()
+		if panicked != "" {
+			break
+		}
+	}
+	if panicked == "" {
+		time.Sleep(tail)
+	}
+	g.release()
 	l.mu.Lock()
 	evs = append(evs, l.evs...)
 	nas = append(nas, l.nas...)
 	l.mu.Unlock()
-	h.Close()
+	if panicked == "" { // a panic inside a critical section of the handler leaks its mutex: Close would block
+		h.Close()
+	}
 	go s.Close() // sleeps one second
 	return
 }
-
-const inflight = 1000 * time.Millisecond // NA written this shortly after StopHunt/Close returned = the known check-then-send window
 
 func traceOracle(evs []event, nas []naFrame, ops []*apiOp, hostMAC []byte) (string, string) {
 	hunted := map[int]bool{}
@@ -528,24 +620,23 @@ func traceOracle(evs []event, nas []naFrame, ops []*apiOp, hostMAC []byte) (stri
 			}
 		}
 	}
-	// 2. every forged NA
-	known := ""
+	// 2. every forged NA (log order: the log is totally ordered, a frame is logged when WriteTo returns)
 	for _, f := range nas {
 		m := int(f.dstMAC[5])
 		// hunted interval: last accepted StartHunt called before the frame, no effective StopHunt / Close returned since
 		state := "never"
 		var since time.Duration
 		for _, o := range ops {
-			if o.kind == 'S' && o.m == m && o.res == "h" && o.callAt <= f.at {
+			if o.kind == 'S' && o.m == m && o.res == "h" && o.callIdx < f.idx {
 				state = "hunted"
 			}
-			if o.kind == 'X' && o.m == m && o.res == "1" && o.retAt <= f.at && state == "hunted" {
+			if o.kind == 'X' && o.m == m && o.res == "1" && o.retIdx < f.idx && state == "hunted" {
 				state = "stopped"
 				since = f.at - o.retAt
 			}
 		}
 		for _, o := range ops {
-			if o.kind == 'C' && o.retAt <= f.at && state != "never" {
+			if o.kind == 'C' && o.retIdx < f.idx && state != "never" {
 				if state != "stopped" || f.at-o.retAt > since {
 					since = f.at - o.retAt
 				}
@@ -556,10 +647,8 @@ func traceOracle(evs []event, nas []naFrame, ops []*apiOp, hostMAC []byte) (stri
 		switch {
 		case state == "never":
 			return fmt.Sprintf("forged NA to %s which was never hunted", hx(f.dstMAC)), ""
-		case state == "stopped" && since > inflight:
-			return fmt.Sprintf("forged NA to %s %v after StopHunt/Close returned", hx(f.dstMAC), since), ""
 		case state == "stopped":
-			known = "c14-na-after-stop-window"
+			return fmt.Sprintf("forged NA to %s written %v after StopHunt/Close had returned (no further forged advertisement may reach a host after StopHunt or Close)", hx(f.dstMAC), since), ""
 		}
 		learned := false
 		for _, o := range ops {
@@ -667,9 +756,6 @@ func traceOracle(evs []event, nas []naFrame, ops []*apiOp, hostMAC []byte) (stri
 			}
 		}
 	}
-	if known != "" {
-		return "a forged NA was written after StopHunt/Close had returned (check-then-send window)", known
-	}
 	return "", ""
 }
 
@@ -683,12 +769,16 @@ func evalTrace(c *core.Ctx, line string) *core.Case {
 	if scn == "" {
 		return nil
 	}
-	evs, nas, ops, hostMAC := runTrace(scn)
+	evs, nas, ops, hostMAC, panicked := runTrace(scn)
 	toks := make([]string, len(evs))
 	for i, e := range evs {
 		toks[i] = fmt.Sprintf("%s@%d", e.tok, e.at.Milliseconds())
 	}
 	nl := "nd.trace scn=" + scn + " " + strings.Join(toks, " ")
+	if panicked != "" {
+		return &core.Case{Line: nl, Impl: "panic", Trivial: false,
+			Oracle: func() (string, string) { return "the ICMPv6 handler panicked: " + panicked, "" }}
+	}
 	return &core.Case{Line: nl, Impl: "accept", Trivial: len(ops) == 0,
 		Oracle: func() (string, string) { return traceOracle(evs, nas, ops, hostMAC) }}
 }
@@ -732,6 +822,18 @@ func genScenario(c *core.Ctx) string {
 			routerKnown = routerKnown || rep == -1
 		case x < 8 && i > 2:
 			st = append(st, "c")
+		case x == 8 && routerKnown && i > 1:
+			// StopHunt / Close / StartHunt / RA while a batch is in flight (held inside WriteTo)
+			m := r.Intn(nm)
+			st = append(st, fmt.Sprintf("a%d", m), fmt.Sprintf("b%d", []int{150, 400}[r.Intn(2)]))
+			switch r.Intn(4) {
+			case 0:
+				st = append(st, "c")
+			case 1:
+				st = append(st, fmt.Sprintf("s%d:l", r.Intn(nm)))
+			default:
+				st = append(st, fmt.Sprintf("x%d:%c", m, "ln"[r.Intn(2)]))
+			}
 		default:
 			st = append(st, fmt.Sprintf("w%d", []int{5, 50, 400, 1200, 2300}[r.Intn(5)]))
 		}
@@ -741,7 +843,7 @@ func genScenario(c *core.Ctx) string {
 
 // Gen is the C14 correspondence run.
 func Gen(c *core.Ctx) {
-	c.Res.Rule = "nd.ra: sequences of 1–3 router advertisements (random fixed part, option lists from the independent builder: prefix, MTU, RDNSS, DNSSL, route information, source/target LLA, unknown types; mutated option areas incl. zero-length and truncated options; throttle open and closed; known and unknown senders; repeated senders) processed in place by a fresh handler, the frame buffer overwritten after every ProcessPacket as a receive loop does, the table read afterwards – learned table vs Lean model vs independent Go decoder.  nd.trace: real-time scenarios (StartHunt/StopHunt over up to 3 MACs with IPv4, global, link-local and address-less targets, Close, router advertisements, pauses up to 2.3 s, 3.3 s tail) run in parallel, one handler each; the ordered log must be accepted by the Lean hunt machine; the oracle checks every NA (hunted, router learned, fields), the API results, list size and the cycle period"
+	c.Res.Rule = "nd.ra: sequences of 1–3 router advertisements (random fixed part, option lists from the independent builder: prefix, MTU, RDNSS, DNSSL, route information, source/target LLA, unknown types; mutated option areas incl. zero-length and truncated options; throttle open and closed; known and unknown senders; repeated senders) processed in place by a fresh handler, the frame buffer overwritten after every ProcessPacket as a receive loop does, the table read afterwards – learned table vs Lean model vs independent Go decoder.  nd.trace: real-time scenarios (StartHunt/StopHunt over up to 3 MACs with IPv4, global, link-local and address-less targets, Close, router advertisements, router advertisements after Close, pauses up to 2.3 s, 3.3 s tail; StopHunt / Close / StartHunt called while a forged NA is held inside the connection's WriteTo – a batch in flight) run in parallel, one handler each; the ordered log must be accepted by the Lean hunt machine (StopHunt / Close take the mutex the sending loop holds: an NA after their return has no interleaving); the oracle checks every NA (hunted – none after StopHunt/Close returned –, router learned, fields), the API results, list size and the cycle period"
 	for _, l := range c.CorpusLines() {
 		add(c, "corpus", l)
 	}
@@ -790,6 +892,11 @@ func Gen(c *core.Ctx) {
 		"s0:l,r1:-1,w2500,x0:l", "r1:-1,s0:n,w300,x0:n", "s0:l,w300,r1:-1,w2600,c", "s0:4,s0:g,r1:-1,w500",
 		"s0:l,s0:l,s0:n,r1:-1,r2:-1,w2900,x0:g,w300,x0:l", "s0:l,s1:n,r1:0,w600,r1:-1,w400,x0:l,w2500,x1:n",
 		"r1:-1,s0:l,w100,x0:l,w50,s0:l,w2900,x0:l", "s0:l,r1:-1,c,w200,s1:l,r2:-1",
+		// StopHunt / Close called while a forged NA is held inside WriteTo: they return only after the batch
+		"s0:l,a0,r1:-1,b500,x0:l,w300", "s0:n,r1:-1,r2:-1,w200,a0,b500,c,w300", "s0:l,s1:n,r1:-1,r2:-1,a1,b400,x1:n,w200,a0,b400,x0:l",
+		"s0:l,a0,r1:-1,b300,x0:l,s0:l,w2500,x0:l",
+		// a router advertisement delivered after Close while the hunt list is not empty
+		"s0:l,c,r1:-1,w100", "s0:l,s1:n,r1:-1,w100,c,r1:-1,r2:-1",
 	}
 	ns := c.Scale(24, 400)
 	scns := append([]string{}, fixed...)
